@@ -306,6 +306,19 @@ def run(ctx, scratch):
         S = rng.choice(g5 if not quick else list(und_with_loops(5, loops=False)))
         E = sorted(set(S) | {(i, i) for i in range(5) if rng.random() < 0.3})
         battery('exh_und_5_loops', 5, E, light=True)
+    # ---- undirected graphs made of several small components (tree-like and cyclic ones, in any order), roots in some of them only:
+    #      every component without a root must be traversed as well (its SciPy label is a small integer, as node ids are)
+    shapes = {'single': (1, []), 'edge': (2, [(0, 1)]), 'path3': (3, [(0, 1), (1, 2)]), 'triangle': (3, [(0, 1), (1, 2), (0, 2)]),
+              'cycle4': (4, [(0, 1), (1, 2), (2, 3), (0, 3)]), 'k4': (4, [(i, j) for i in range(4) for j in range(i + 1, 4)])}
+    for _ in range(40 if quick else 400):
+        comps = [rng.choice(['edge', 'edge', 'path3', 'triangle', 'triangle', 'cycle4', 'k4', 'single']) for _ in range(rng.randint(2, 4))]
+        n, E = 0, []
+        for c_ in comps:
+            sz, ed = shapes[c_]
+            E += [(n + a_, n + b_) for (a_, b_) in ed] + [(n + b_, n + a_) for (a_, b_) in ed]
+            n += sz
+        if E:
+            battery('und_components_' + '+'.join(comps), n, E, light=True)
     # ---- exhaustive digraphs with loops n <= 3, sampled n = 4
     for n in (1, 2):
         for E in gen.all_directed(n, loops=True):
